@@ -26,6 +26,10 @@ type countingReader struct {
 	b   []byte
 	pos int
 	max int // > 0: hand out at most max octets per Read (a reader is free to deliver less than asked for)
+	// eofWithData: the Read that hands out the last octets reports io.EOF together with them, as the io.Reader
+	// contract allows ("a Reader returning a non-zero number of bytes at the end of the input stream may return
+	// either err == EOF or err == nil")
+	eofWithData bool
 }
 
 func (c *countingReader) Read(p []byte) (int, error) {
@@ -40,6 +44,9 @@ func (c *countingReader) Read(p []byte) (int, error) {
 	}
 	n := copy(p, c.b[c.pos:])
 	c.pos += n
+	if c.eofWithData && c.pos >= len(c.b) {
+		return n, io.EOF
+	}
 	return n, nil
 }
 
@@ -349,6 +356,7 @@ func TestC06(t *testing.T) {
 		}
 		// ---- read back through the counting reader
 		rd := &countingReader{b: buf.Bytes(), max: rapid.SampledFrom([]int{0, 0, 1, 2, 3, 7}).Draw(rt, "readerDeliversAtMost")}
+		rd.eofWithData = rapid.IntRange(0, 3).Draw(rt, "lastReadReportsEOFWithItsData") == 0
 		var dec *hessian.Decoder
 		if ser == nil {
 			dec = hessian.NewDecoder(rd, tm)
@@ -478,6 +486,9 @@ func TestC06(t *testing.T) {
 		r.Label("api:" + via)
 		if byPeer {
 			r.Label("stream written by the reference encoder")
+		}
+		if rd.eofWithData {
+			r.Label("the reader's last Read reports io.EOF together with its data")
 		}
 		if rd.max > 0 {
 			r.Label(fmt.Sprintf("reader delivers at most %d octets per Read", rd.max))
